@@ -1,21 +1,21 @@
 #!/bin/bash
 # tools/seed_run.sh <seed-name e.g. C01-1> <check> [check...] : apply the stored seeded change to the
-# scratch worktree /tmp/ev/repo (a mirror of /verif at /tmp/ev/verif is built against it), run the given
+# scratch worktree ${EVD:-/tmp/ev}/repo (a mirror of /verif at ${EVD:-/tmp/ev}/verif is built against it), run the given
 # quick checks there, restore the worktree. /repo and /verif/evidence are not touched.
 set -u
 cd "$(dirname "$0")/.."
 export GOFLAGS=-mod=mod GOPROXY=off GOSUMDB=off GOTOOLCHAIN=local
 S="$1"; shift
-tools/alt_sync.sh || exit 2
-[ -z "$(git -C /tmp/ev/repo status --porcelain)" ] || { git -C /tmp/ev/repo checkout -q -- . ; git -C /tmp/ev/repo clean -fdq; }
-git -C /tmp/ev/repo apply "/verif/seeded/$S/patch.diff" || exit 2
+tools/alt_sync.sh "${EVD:-/tmp/ev}" || exit 2
+[ -z "$(git -C ${EVD:-/tmp/ev}/repo status --porcelain)" ] || { git -C ${EVD:-/tmp/ev}/repo checkout -q -- . ; git -C ${EVD:-/tmp/ev}/repo clean -fdq; }
+git -C ${EVD:-/tmp/ev}/repo apply "/verif/seeded/$S/patch.diff" || exit 2
 res=""
 for chk in "$@"; do
-  out="$(cd /tmp/ev/verif && VERIF_HANG_S=40 VERIF_REPO=/tmp/ev/repo ./run.sh "$chk" quick 2>/dev/null)"; rc=$?
+  out="$(cd ${EVD:-/tmp/ev}/verif && VERIF_HANG_S=40 VERIF_REPO=${EVD:-/tmp/ev}/repo ./run.sh "$chk" quick 2>/dev/null)"; rc=$?
   if [ $rc -eq 1 ] && echo "$out" | grep -q "^VIOLATION property=$chk "; then r=detected; elif [ $rc -eq 0 ]; then r=missed; else r="error(rc=$rc)"; fi
   res="$res $chk=$r"
 done
-git -C /tmp/ev/repo checkout -q -- . ; git -C /tmp/ev/repo clean -fdq
+git -C ${EVD:-/tmp/ev}/repo checkout -q -- . ; git -C ${EVD:-/tmp/ev}/repo clean -fdq
 python3 - "seeded/$S/meta.json" "$res" <<'PY'
 import json,sys
 p,res=sys.argv[1:3]
